@@ -112,7 +112,7 @@ func ActionRawValues(currentWord string, meta common.Meta, values common.RawValu
 			}
 		} else {
 			nospace = true
-			val.Display = displayReplacer.Replace(val.Display)
+			val.Display = displayReplacer.Replace(sanitizer.Replace(val.Display))
 			val.Description = displayReplacer.Replace(val.Description)
 			if val.Description != "" {
 				vals[index] = fmt.Sprintf("%v (%v)", val.Display, sanitizer.Replace(val.TrimmedDescription()))
